@@ -5,8 +5,8 @@ use educe::Educe;
 use core::cmp::Ordering;
 #[derive(Educe)]
 #[educe(PartialEq, Eq)]
-pub struct T { #[educe(Eq(method(m_eq)))] y: A<0>, #[educe(Eq(ignore(true)))] arg: A<1> }
-pub fn values() -> Vec<T> { vec![T { y: A(0), arg: A(0) }, T { y: A(0), arg: A(1) }, T { y: A(0), arg: A(7) }, T { y: A(1), arg: A(0) }, T { y: A(1), arg: A(1) }, T { y: A(1), arg: A(7) }, T { y: A(7), arg: A(0) }, T { y: A(7), arg: A(1) }, T { y: A(7), arg: A(7) }] }
-pub fn show(x: &T) -> String { #[allow(unused_variables)] match x { T { y: p0, arg: p1 } => format!("T({},{})", sv(p0), sv(p1)) } }
-pub fn o_eq(a: &T, b: &T) -> bool { match (a, b) { (T { y: a0, arg: a1 }, T { y: b0, arg: b1 }) => m_eq(a0, b0) } }
+pub struct T;
+pub fn values() -> Vec<T> { vec![T] }
+pub fn show(x: &T) -> String { #[allow(unused_variables)] match x { T => format!("T()") } }
+pub fn o_eq(a: &T, b: &T) -> bool { match (a, b) { (T, T) => true } }
 pub fn run(out: &mut Out) { let vs = values(); for a in &vs { for b in &vs { let e = o_eq(a, b); out.check((a == b) == e, "eq_27", "eq", || format!("{} == {} expected {}", show(a), show(b), e)); out.check((a != b) == !e, "eq_27", "ne", || format!("{} != {} expected {}", show(a), show(b), !e)); } } }
